@@ -755,6 +755,11 @@ def standin_fmt_literal_forms(tier, seed):
              'let x = 1;\n\n//\n\nlet y = [\n  //\n  1,\n];\n']
     for b in blank:
         cases.append(dict(source=b, label='blank comment lines %r' % b))
+    # comment groups around and after the last statement (several groups separated by blank lines, comment-only files)
+    trailing = ['let x = 1;\n// t1\n', 'let x = 1;\n// t1\n\n// t2\n', 'let x = 1;\n\n// t1\n// t1b\n\n// t2\n\n// t3\n', '// only\n', '// g1\n\n// g2\n',
+                '// g1\n\n// g2\n\n// g3\n', '// head\n\nlet x = 1;\n\n// mid\nlet y = 2;\n// t1\n\n// t2\n']
+    for b in trailing:
+        cases.append(dict(source=b, label='comment groups at the end %r' % b))
     ops = BINOPS + ['.']
     nops = 0
     for o1 in ops:
